@@ -167,6 +167,13 @@ fn sink_then_source<T: S14>(ty: Ty, bytes: &[u8], pages: u8, sched_a: &[Step], s
     let size = Some(pages.max(1) as usize * 4096);
     rustradio::verif::set_stream_size(size);
     let (sin, rs) = SIn::new(data, vec![]);
+    // the recording replaces an older one of another length (derived from the data, so the
+    // case stays a pure function of its fields): every third case longer, every third shorter
+    match bytes.len() % 3 {
+        0 => {}
+        1 => std::fs::write(&path, vec![0xA5u8; bytes.len() + 1 + bytes.len() % 977]).expect("scratch file"),
+        _ => std::fs::write(&path, vec![0x5Au8; bytes.len() / 2]).expect("scratch file"),
+    }
     let sink = match FileSink::<T>::new(rs, &path, Mode::Overwrite) {
         Ok(s) => s,
         Err(e) => {
@@ -724,4 +731,4 @@ impl C14 {
     }
 }
 
-const RULE: &str = "generated: (a) Sample::parse/serialize/size on raw bit patterns for u8,u32,i32,f32,Complex; (b) FileSink -> file -> FileSource for every type, 0..14k samples of arbitrary bit patterns, both sides under drip schedules on 1-3 page streams; (c) SigMFSource on recording pairs and on tar archives whose members (meta, data, up to 3 unrelated files) are written in a generated order, plus malformed variants (two metas, missing/duplicate data, wrong datatype, garbage meta) that must be rejected with Err; (d) AuEncode -> AuDecode on x in [-1,1] (and some saturating values) under drip schedules on both blocks, and AuDecode on the repository's testdata/aprs.au; (e) read segmentation: FileSource on a FIFO and TcpSource on a loopback connection whose writer releases generated chunk sizes (1-byte chunks and splits inside a sample included; the harness paces on FIONREAD / TIOCOUTQ so the single-threaded blocking reads always find data). Oracle: independent little-endian / big-endian PCM16 readers of the same bytes; exact sample sequences and counts (trailing partial sample dropped); encoder bytes == documented 28-byte header + PCM16. Non-trivial: a split inside a sample, or a stream longer than one capacity, or an archive with >= 3 members in non-canonical order, or a malformed container; distinct = hash of the case.";
+const RULE: &str = "generated: (a) Sample::parse/serialize/size on raw bit patterns for u8,u32,i32,f32,Complex; (b) FileSink(Overwrite) -> file -> FileSource for every type, onto a fresh path or over an older, longer or shorter file, 0..14k samples of arbitrary bit patterns, both sides under drip schedules on 1-3 page streams; (c) SigMFSource on recording pairs and on tar archives whose members (meta, data, up to 3 unrelated files) are written in a generated order, plus malformed variants (two metas, missing/duplicate data, wrong datatype, garbage meta) that must be rejected with Err; (d) AuEncode -> AuDecode on x in [-1,1] (and some saturating values) under drip schedules on both blocks, and AuDecode on the repository's testdata/aprs.au; (e) read segmentation: FileSource on a FIFO and TcpSource on a loopback connection whose writer releases generated chunk sizes (1-byte chunks and splits inside a sample included; the harness paces on FIONREAD / TIOCOUTQ so the single-threaded blocking reads always find data). Oracle: independent little-endian / big-endian PCM16 readers of the same bytes; exact sample sequences and counts (trailing partial sample dropped); encoder bytes == documented 28-byte header + PCM16. Non-trivial: a split inside a sample, or a stream longer than one capacity, or an archive with >= 3 members in non-canonical order, or a malformed container; distinct = hash of the case.";
